@@ -132,7 +132,15 @@ def dispatch_table(ctx, fi: FuncInfo, subject: str, extra_values=(), allow_atoms
     if dd is not None:
         return dd
     try:
-        return _chain_dispatch(ctx, fi, subject, sps, extra_values, allow_atoms)
+        table = _chain_dispatch(ctx, fi, subject, sps, extra_values, allow_atoms)
+        # conditional expressions / look-ups left inside a returned value are resolved for the key
+        if any(v[1] is not None and any(isinstance(n, (ast.IfExp, ast.Subscript)) or (isinstance(n, ast.Call) and isinstance(n.func, ast.Attribute)
+                                                                                     and n.func.attr == 'get') for n in ast.walk(v[1]))
+               for v in table.values()):
+            if any(v[1] is not None and any(isinstance(n, ast.IfExp) for n in ast.walk(v[1])) for v in table.values()):
+                # the keys the if-chain recogniser saw do not include those tested inside the expression
+                return dispatch_by_specialisation(ctx, fi, subject, sps, extra_values, allow_atoms)
+        return table
     except AnalysisError as first:
         try:
             return dispatch_by_specialisation(ctx, fi, subject, sps, extra_values, allow_atoms)
@@ -697,6 +705,13 @@ class _Specialise(ast.NodeTransformer):
                     return v if v is not None else (node.args[1] if len(node.args) == 2 else ast.Constant(value=None))
         return node
 
+    def visit_IfExp(self, node):
+        node = super().generic_visit(node)
+        ok, v = self.ctx.ce.try_eval(node.test, self.fi.module, self.fi.cls, dict(getattr(self, 'env', {}) or {}))
+        if ok:
+            return node.body if v else node.orelse
+        return node
+
     def visit_Subscript(self, node):
         node = super().generic_visit(node)
         if isinstance(node.ctx, ast.Load):
@@ -716,7 +731,7 @@ def dispatch_by_specialisation(ctx, fi: FuncInfo, subject: str, sps, extra_value
     the outcome.  Candidates: extra_values, the constants the subject is compared with, the keys of the tables it indexes."""
     cands = list(extra_values)
     for sp in sps:
-        for node, _ in sp.conds:
+        for node in [c for c, _ in sp.conds] + ([sp.value] if sp.value is not None else []):
             for n in ast.walk(node):
                 if isinstance(n, ast.Compare) and len(n.ops) == 1 and isinstance(n.ops[0], (ast.Eq, ast.NotEq)):
                     for a, b in ((n.left, n.comparators[0]), (n.comparators[0], n.left)):
